@@ -71,24 +71,38 @@ class Resolver(object):
         return None
 
     def size_atom(self, e):
-        """(axis, owner text) if the expression is a per-direction size, else None"""
+        """(axis, owner text) if the expression is a per-direction size, else None.  Only API names count: attribute / parameter names
+        and dictionary keys; a local is a size collection when its single definition is one"""
         if isinstance(e, ast.Attribute):
             mm = SIZE_ATTR.match(e.attr)
             if mm:
                 return ({'u': 0, 'v': 1, 'w': 2}[mm.group(2)], norm(e.value))
-        if isinstance(e, ast.Subscript) and isinstance(e.slice, ast.Constant) and isinstance(e.slice.value, int):
+        if isinstance(e, ast.Subscript) and isinstance(e.slice, ast.Constant) and isinstance(e.slice.value, int) and e.slice.value in (0, 1, 2):
             b = e.value
-            bn = b.id if isinstance(b, ast.Name) else (b.attr if isinstance(b, ast.Attribute) else (
-                b.slice.value if isinstance(b, ast.Subscript) and isinstance(b.slice, ast.Constant) and isinstance(b.slice.value, str) else None))
-            if bn in SIZE_COLLECTIONS and e.slice.value in (0, 1, 2):
-                owner = norm(b.value) if isinstance(b, (ast.Attribute, ast.Subscript)) else ('param' if bn in params_of(self.fi.node) else self.owner_of_local(b))
-                if isinstance(b, ast.Name):
-                    owner = self.owner_of_local(b)
-                return (e.slice.value, owner)
+            coll = self.size_collection(b)
+            if coll is not None:
+                return (e.slice.value, coll)
         if isinstance(e, ast.Name) and e.id in params_of(self.fi.node):
             mm = SIZE_ATTR.match(e.id)
             if mm:
                 return ({'u': 0, 'v': 1, 'w': 2}[mm.group(2)], 'param')
+        return None
+
+    def size_collection(self, b, depth=0):
+        """owner text if `b` denotes a per-direction size collection (x.cpsize, x._control_points_size, d['size'], a parameter named so,
+        or a local bound once to one of these)"""
+        if depth > 4:
+            return None
+        if isinstance(b, ast.Attribute) and b.attr in SIZE_COLLECTIONS:
+            return norm(b.value)
+        if isinstance(b, ast.Subscript) and isinstance(b.slice, ast.Constant) and isinstance(b.slice.value, str) and b.slice.value in SIZE_COLLECTIONS:
+            return norm(b.value)
+        if isinstance(b, ast.Name):
+            if b.id in params_of(self.fi.node) and not self.sc.defs.get(b.id):
+                return (b.id if b.id == 'cpsize' else 'param') if b.id in SIZE_COLLECTIONS else None
+            vals = [d[1] for d in self.sc.defs.get(b.id, []) if d[3] == 'assign' and d[1] is not None]
+            if len(vals) == 1:
+                return self.size_collection(vals[0], depth + 1)
         return None
 
     def owner_of_local(self, name_node):
